@@ -288,7 +288,7 @@ func runCase(lg *tracelog.Log, rl *raceLog, t int, c map[string]any, rq reqT) {
 		}
 		return "", nil
 	}
-	arrivalWait := 5 * time.Second
+	arrivalWait := 20 * time.Second
 	if slowMode {
 		arrivalWait = 30 * time.Millisecond
 	}
@@ -315,8 +315,8 @@ func runCase(lg *tracelog.Log, rl *raceLog, t int, c map[string]any, rq reqT) {
 			if len(remaining) > 0 {
 				slowMode, arrivalWait = true, 30*time.Millisecond
 			}
-			if !waitFor(func() bool { gather(); return done || len(pend) > 0 }, 10*time.Second) {
-				fmt.Println("tierauth: call neither returned nor asked anything for 10s")
+			if !waitFor(func() bool { gather(); return done || len(pend) > 0 }, 180*time.Second) {
+				fmt.Println("tierauth: call neither returned nor asked anything for 180s")
 				os.Exit(2)
 			}
 			if done {
